@@ -59,6 +59,7 @@ type Prog struct {
 	ls          *Locksets
 	lo          *LockOrder
 	vf          *VFlow
+	bce         *BCE
 }
 
 func loadEnv(cfg Config) []string {
